@@ -300,7 +300,7 @@ func scenarioGroup(w *pool.W, scs []*Scenario, tier string, runtime bool) error 
 			FnExpr: fnExprOf(sc, tm),
 			Assert: assertOf(sc),
 			Plan:   res.Plan, Mode: mode, Funcs: sc.Funcs, Meta: meta, SrcIdx: sc.SrcIdx, CtxIdx: sc.CtxIdx, TgtIdx: sc.TgtIdx,
-			Conv: convExpr(sc),
+			Conv: convExpr(sc), Imports: sc.Imports,
 		})
 		for n, c := range sc.Files {
 			if batch.Files == nil {
@@ -310,12 +310,6 @@ func scenarioGroup(w *pool.W, scs []*Scenario, tier string, runtime bool) error 
 				batch.Files[n] = old + "\n" + stripPackageClause(c)
 			} else {
 				batch.Files[n] = c
-			}
-		}
-		for _, im := range sc.Imports {
-			if !containsStr(batch.Imports, im) {
-				batch.Imports = append(batch.Imports, im)
-				batch.MainImps = append(batch.MainImps, im)
 			}
 		}
 	}
